@@ -17,9 +17,8 @@ type Edit struct {
 func LineNumber(source string, head int) (int, int) {
 	// Calculate the true line and column number for a query, ignoring spaces
 	var comment bool
-	var loc, line, col int
+	var line, col int
 	for i, char := range source {
-		loc += 1
 		col += 1
 		// TODO: Check bounds
 		if char == '-' && source[i+1] == '-' {
@@ -30,7 +29,8 @@ func LineNumber(source string, head int) (int, int) {
 			line += 1
 			col = 0
 		}
-		if loc <= head {
+		// head is a byte offset; i is the byte index of char
+		if i < head {
 			continue
 		}
 		if unicode.IsSpace(char) {
